@@ -46,6 +46,7 @@ type SHist struct {
 	Status  int
 	Isolate string // buffer-isolation result
 	Skipped bool
+	File    []byte // fsenc: raw content of the key's file after a Set
 }
 
 type keyLister interface {
@@ -249,9 +250,18 @@ func (r *Run) sclient(phase, ci int, cl *SClient) {
 			h.Ret = r.Sim.Event(g, "s.ret", info)
 		}
 		switch op.Kind {
-		case "set", "set-mutate":
+		case "set", "set-mutate", "set-same":
 			h.ValID = fmt.Sprintf("%s.%d", name, oi)
 			h.Val = sval(h.ValID, op.ValLen, op.Class)
+			if op.Kind == "set-same" {
+				// exactly the bytes of the previous Set of this key
+				for k := len(r.SHists) - 2; k >= 0; k-- {
+					if p := r.SHists[k]; p.Key == key && p.Val != nil {
+						h.ValID, h.Val = p.ValID, p.Val
+						break
+					}
+				}
+			}
 			if r.plainWatch {
 				r.addPlain(h.Val)
 			}
@@ -267,7 +277,71 @@ func (r *Run) sclient(phase, ci int, cl *SClient) {
 			if err != nil {
 				h.Err = err.Error()
 			}
+			if r.Scn.Backend == "fsenc" {
+				h.File = r.onlyFile()
+			}
 			ret(fmt.Sprintf("set err=%v", err != nil))
+		case "corrupt":
+			path, content := r.onlyFileNamed()
+			h.Inv = r.Sim.Event(g, "s.corrupt", fmt.Sprintf("%s mode=%s arg=%d len=%d", path, op.Mode, op.Arg, len(content)))
+			changed := false
+			if path != "" {
+				_ = simos.Corrupt(path, func(b []byte) []byte {
+					orig := append([]byte(nil), b...)
+					switch op.Mode {
+					case "flip1", "flip80", "fliprand":
+						if len(b) > 0 {
+							m := map[string]byte{"flip1": 0x01, "flip80": 0x80, "fliprand": byte(1 + (op.Arg*37+11)%255)}[op.Mode]
+							b[op.Arg%len(b)] ^= m
+						}
+					case "trunc":
+						b = b[:op.Arg%(len(b)+1)]
+					case "extend1":
+						b = append(b, 0x00)
+					case "extend16":
+						b = append(b, bytes.Repeat([]byte{0xab}, 16)...)
+					case "empty":
+						b = nil
+					case "swapnonce":
+						if len(b) > 24 {
+							for i := 0; i < 12; i++ {
+								b[i], b[12+i] = b[12+i], b[i]
+							}
+						}
+					}
+					changed = !bytes.Equal(orig, b)
+					return b
+				})
+			}
+			h.OK = changed
+			r.fired("disk.at-rest-" + op.Mode)
+			ret(fmt.Sprintf("corrupt changed=%v", changed))
+		case "rekey":
+			h.Inv = r.Sim.Event(g, "s.rekey", "")
+			r.encKey = []string{"ZmVkY2JhOTg3NjU0MzIxMGZlZGNiYTk4NzY1NDMyMTA=", "MDEyMzQ1Njc4OWFiY2RlZg==", "ZmVkY2JhOTg3NjU0MzIxMGZlZGNiYTk4"}[op.Arg%3]
+			c2, err := r.ssimOpen()
+			h.OK = err == nil
+			if err == nil {
+				r.setConn(c2)
+			} else {
+				h.Err = err.Error()
+			}
+			r.fired("config.wrong-key")
+			ret(fmt.Sprintf("rekey ok=%v", h.OK))
+		case "open-badkey":
+			h.Inv = r.Sim.Event(g, "s.open-badkey", fmt.Sprintf("variant=%d", op.Arg%6))
+			c2, err := r.openBadKey(op.Arg % 6)
+			h.OK = err == nil
+			if err != nil {
+				h.Err = err.Error()
+			} else {
+				// a backend that opened although encryption was requested without a usable key: does it write plaintext?
+				v := sval("badkey", 64, 0)
+				r.addPlain(v)
+				_ = c2.Set(key+"-badkey", v)
+			}
+			r.fired("config.unusable-key")
+			ret(fmt.Sprintf("open-badkey opened=%v", h.OK))
 		case "get", "get-mutate":
 			h.Inv = r.Sim.Event(g, "s.get", fmt.Sprintf("k%d", op.Key))
 			v, err := conn.Get(key)
@@ -384,6 +458,44 @@ func (r *Run) apiOp(g *kit.Gor, h *SHist, op *SOp, key string, ret func(string))
 	ret(fmt.Sprintf("%s status=%d", op.Kind, rec.Code))
 }
 
+func (r *Run) onlyFileNamed() (string, []byte) {
+	files := simos.Snapshot()
+	names := make([]string, 0, len(files))
+	for k := range files {
+		names = append(names, k)
+	}
+	sort.Strings(names)
+	if len(names) == 0 {
+		return "", nil
+	}
+	return names[0], files[names[0]]
+}
+
+func (r *Run) onlyFile() []byte {
+	_, c := r.onlyFileNamed()
+	return c
+}
+
+func (r *Run) openBadKey(variant int) (driver.Conn, error) {
+	simos.Unsetenv("FSCACHE_ENCRYPT_KEY")
+	switch variant {
+	case 0:
+		return store.Open("fscache:///simcache?appname=app&encrypt=on")
+	case 1:
+		return fscache.Open("app", fscache.WithBaseDir("/simcache"), fscache.WithEncryption(""))
+	case 2:
+		return fscache.Open("app", fscache.WithBaseDir("/simcache"), fscache.WithEncryption("not base64 at all !!"))
+	case 3:
+		return store.Open("fscache:///simcache?appname=app&encrypt=aesgcm&encrypt_key=MDEyMzQ1Njc4OQ==")
+	case 4:
+		return store.Open("fscache:///simcache?appname=app&encrypt=aesgcm&encrypt_key=")
+	default:
+		simos.Setenv("FSCACHE_ENCRYPT_KEY", "c2hvcnQ=")
+		defer simos.Unsetenv("FSCACHE_ENCRYPT_KEY")
+		return store.Open("fscache:///simcache?appname=app&encrypt=on")
+	}
+}
+
 func (r *Run) addPlain(v []byte) {
 	r.mu.Lock()
 	defer r.mu.Unlock()
@@ -422,6 +534,12 @@ func JudgeSsim(r *Run) *Judged {
 		return j
 	}
 	sequential := len(r.Scn.SClients) == 1 && len(r.Scn.Phase2) <= 1 && len(r.Scn.DiskFaults) == 0
+	for _, h := range r.SHists {
+		switch h.Op.Kind {
+		case "corrupt", "rekey", "open-badkey":
+			sequential = false
+		}
+	}
 	vfail := func(prop, rule, sig string, h *SHist, format string, a ...any) {
 		v := Violation{Prop: prop, Rule: rule, Msg: fmt.Sprintf(format, a...), Sig: rule}
 		if sig != "" {
@@ -467,7 +585,7 @@ func JudgeSsim(r *Run) *Judged {
 				continue
 			}
 			switch h.Op.Kind {
-			case "set", "set-mutate":
+			case "set", "set-mutate", "set-same":
 				j.count("C14", "set-failed")
 				if !h.OK {
 					vfail("C14", "set-failed", collide(h.Key), h, "Set of key %q (len %d) failed on a fault-free backend: %s", clip(h.Key), len(h.Key), h.Err)
@@ -567,6 +685,53 @@ func JudgeSsim(r *Run) *Judged {
 	}
 	if r.Scn.Backend != "mem" || conc {
 		judgeLinearizable(r, j, vfail)
+	}
+	// ---- C17: tampering, wrong key, unusable key, ciphertext freshness ----
+	if r.Scn.Backend == "fsenc" {
+		tampered, wrongKey := map[string]string{}, false
+		var lastSet *SHist
+		for _, h := range r.SHists {
+			if h.Ret == 0 {
+				continue
+			}
+			switch h.Op.Kind {
+			case "set", "set-mutate", "set-same":
+				if h.OK {
+					delete(tampered, h.Key)
+				}
+				if lastSet != nil && lastSet.Key == h.Key && h.OK && lastSet.OK && bytes.Equal(lastSet.Val, h.Val) && h.File != nil && lastSet.File != nil {
+					j.count("C17", "deterministic-ciphertext")
+					if bytes.Equal(lastSet.File, h.File) {
+						vfail("C17", "deterministic-ciphertext", "", h, "two Sets of the same %d-byte value produced identical file contents", len(h.Val))
+					}
+				}
+				lastSet = h
+			case "corrupt":
+				if h.OK {
+					tampered[h.Key] = h.Op.Mode
+				}
+			case "rekey":
+				wrongKey = h.OK
+			case "open-badkey":
+				j.count("C17", "plaintext-fallback")
+				if h.OK {
+					vfail("C17", "plaintext-fallback", fmt.Sprint(h.Op.Arg%6), h, "opening the backend with encryption requested but no usable key (variant %d) succeeded instead of failing", h.Op.Arg%6)
+				}
+			case "get", "get-mutate":
+				if mode, ok := tampered[h.Key]; ok {
+					j.count("C17", "tamper-accepted")
+					if h.OK {
+						vfail("C17", "tamper-accepted", mode, h, "Get returned %d bytes (id=%q) from a file that had been modified at rest (%s at %d)", len(h.Got), h.GotID, mode, 0)
+					}
+				}
+				if wrongKey {
+					j.count("C17", "wrong-key-yields-data")
+					if h.OK {
+						vfail("C17", "wrong-key-yields-data", "", h, "Get with a different encryption key returned %d bytes", len(h.Got))
+					}
+				}
+			}
+		}
 	}
 	// ---- C17: plaintext on disk ----
 	if r.plainWatch {
@@ -684,7 +849,7 @@ func judgeLinearizable(r *Run, j *Judged, vfail func(prop, rule, sig string, h *
 	var maxSeq uint64
 	for _, h := range r.SHists {
 		switch h.Op.Kind {
-		case "set", "set-mutate", "get", "get-mutate", "delete":
+		case "set", "set-mutate", "set-same", "get", "get-mutate", "delete":
 			byKey[h.Key] = append(byKey[h.Key], h)
 		}
 		maxSeq = max(maxSeq, h.Inv, h.Ret)
@@ -711,7 +876,7 @@ func judgeLinearizable(r *Run, j *Judged, vfail func(prop, rule, sig string, h *
 				cid = len(clientIDs)
 				clientIDs[h.Client] = cid
 			}
-			in := regIn{kind: strings.TrimSuffix(strings.TrimSuffix(h.Op.Kind, "-mutate"), ""), id: h.ValID}
+			in := regIn{kind: strings.TrimSuffix(strings.TrimSuffix(h.Op.Kind, "-mutate"), "-same"), id: h.ValID}
 			out := regOut{ok: h.OK, notex: h.NotEx, failed: !h.OK && !h.NotEx, id: h.GotID, never: h.Ret == 0}
 			if in.kind == "get" && h.OK && (h.GotID == "" ) {
 				out.id = ""
